@@ -6,6 +6,8 @@ HARNESSES = [
     # aws_priority_queue_push_ref redirected, so that <=2 pushes per history can be made to fail (timed_list code)
     dict(name="sched-inj", src=["sched.c"], variant="asan", cflags=["-DC07_INJECT"], tiers=["thorough"],
          deadline={"quick": 90, "thorough": 900}),
+    # timed-heap shapes with 6 (quick) / 7 (thorough) entries: every schedule order x cancel x run_all threshold (BEE)
+    dict(name="heapperm", src=["heapperm.c"], variant="asan", deadline={"quick": 120, "thorough": 900}),
 ]
 ASSUMPTIONS = [
     "bounds: 3 tasks (thorough also 4: T3 passive), times {0,1,2,5,UINT64_MAX} for schedule_future and run_all; every "
